@@ -131,6 +131,11 @@ class Ctx(object):
                                    "vacuity": getattr(r, "vac", [])[:3]})
             self.obligations += r.obligations
             self.discharged += r.discharged
+            if r.obligations == 0 and r.trivial and r.status == "ok":
+                # every obligation of the unit was closed by the term simplifier while it was generated
+                self.obligations += r.trivial
+                self.discharged += r.trivial
+                self.by_solver["simplifier"] = self.by_solver.get("simplifier", 0) + r.trivial
             self.solver_time += r.solver_time
             for k, v in r.by_solver.items():
                 self.by_solver[k] = self.by_solver.get(k, 0) + v
